@@ -135,6 +135,24 @@ pub fn gen_tree(rng: &mut Rng, depth: u32, wide: bool) -> Tree {
     t
 }
 
+/// Many maps in total (more than any nesting limit) while staying shallow.
+pub fn gen_many_maps(rng: &mut Rng, total: usize) -> Tree {
+    let mut t: Tree = vec![];
+    let mut left = total;
+    let mut k = 0;
+    while left > 0 {
+        let inner = rng.usize_below(4).min(left.saturating_sub(1));
+        let mut m: Tree = vec![];
+        for j in 0..inner {
+            m.push((format!("m{}", j), Node::Map(if rng.chance(1, 3) { vec![("v".to_string(), Node::Int(j as i32))] } else { vec![] })));
+        }
+        left -= 1 + inner;
+        t.push((format!("k{}", k), Node::Map(m)));
+        k += 1;
+    }
+    t
+}
+
 /// A deep, narrow chain (depth up to `d`) to exercise nesting.
 pub fn gen_chain(rng: &mut Rng, d: u32) -> Tree {
     let mut t: Tree = vec![("leaf".to_string(), Node::Int(rng.next_u32() as i32))];
@@ -374,6 +392,18 @@ pub fn gen_stream(rng: &mut Rng, len: usize, allow_eintr: bool) -> StreamSpec {
         hard_error_kind: 0,
         seek_error: false,
         hard_error_offset: None,
+        prefix: 0,
+        suffix: 0,
+    }
+}
+
+/// Place the replay inside a larger stream: unrelated bytes before and/or after it.
+pub fn gen_embedding(rng: &mut Rng, s: &mut StreamSpec) {
+    if rng.chance(1, 2) {
+        s.prefix = *rng.pick(&[1u32, 2, 3, 6, 7, 8, 15, 16, 100, 4096, 70_000]);
+    }
+    if rng.chance(1, 3) {
+        s.suffix = *rng.pick(&[1u32, 2, 16, 700, 5000]);
     }
 }
 
